@@ -212,30 +212,92 @@ func checkC16(c *core.Ctx, r *core.Report) {
 				numVal = v
 			}
 		}
-		// blocks of the number arm: dominated by the true edge of `dType == jp.Number`
+		// blocks of the number arm: the blocks in which the JSON value type is known to be Number. The
+		// knowledge comes from the comparisons of the type value with constants on the way (a small forward
+		// data-flow over the finite set {each constant compared with, anything else}): the true edge of `==`
+		// keeps that constant, its false edge removes it, joins take the union. This reads the switch form,
+		// the early-return form (`if dType != jp.Number { return 0 }`) and guard clauses that exclude the
+		// other types one after the other alike.
 		var arm *ssa.BasicBlock
-		for _, b := range fn.Blocks {
-			ifi, ok := core.LastIf(b)
-			if !ok {
-				continue
+		inArm := map[*ssa.BasicBlock]bool{}
+		{
+			type cmp struct {
+				k      int64
+				eqTrue bool // the true edge is the `equal` edge
 			}
-			bo, ok := ifi.Cond.(*ssa.BinOp)
-			if !ok || (bo.Op != token.EQL && bo.Op != token.NEQ) {
-				continue
+			cmps := map[*ssa.BasicBlock]cmp{}
+			var tv ssa.Value
+			bits := map[int64]uint64{}
+			for _, b := range fn.Blocks {
+				ifi, ok := core.LastIf(b)
+				if !ok {
+					continue
+				}
+				bo, ok := ifi.Cond.(*ssa.BinOp)
+				if !ok || (bo.Op != token.EQL && bo.Op != token.NEQ) {
+					continue
+				}
+				x, y := bo.X, bo.Y
+				if _, isK := x.(*ssa.Const); isK {
+					x, y = y, x
+				}
+				k, ok := core.ConstIntValue(y)
+				if !ok {
+					continue
+				}
+				if _, isParam := x.(*ssa.Parameter); isParam {
+					continue
+				}
+				if n, ok := x.Type().(*types.Named); !ok || n.Obj().Name() != "ValueType" {
+					continue
+				}
+				if tv == nil {
+					tv = x
+				}
+				if tv != x {
+					continue
+				}
+				if _, seen := bits[k]; !seen {
+					bits[k] = 1 << uint(len(bits)+1)
+				}
+				cmps[b] = cmp{k, bo.Op == token.EQL}
 			}
-			// the arm is the successor taken when the type IS Number: the true edge of `==`, the false
-			// edge of `!=` (the early-return form `if dType != jp.Number { return 0 }`)
-			taken := 0
-			if bo.Op == token.NEQ {
-				taken = 1
-			}
-			x, y := bo.X, bo.Y
-			if _, isK := x.(*ssa.Const); isK {
-				x, y = y, x
-			}
-			if k, ok := core.ConstIntValue(y); ok && k == numVal && numVal >= 0 {
-				if _, isParam := x.(*ssa.Parameter); !isParam && len(b.Succs[taken].Preds) == 1 {
-					arm = b.Succs[taken]
+			if nb, ok := bits[numVal]; ok && numVal >= 0 && len(fn.Blocks) > 0 {
+				var all uint64 = 1 // bit 0: any value not compared with
+				for _, v := range bits {
+					all |= v
+				}
+				fact := map[*ssa.BasicBlock]uint64{fn.Blocks[0]: all}
+				for changed := true; changed; {
+					changed = false
+					for _, b := range fn.Blocks {
+						f := fact[b]
+						if f == 0 {
+							continue
+						}
+						for i, s := range b.Succs {
+							out := f
+							if cm, ok := cmps[b]; ok {
+								if (i == 0) == cm.eqTrue {
+									out = f & bits[cm.k]
+								} else {
+									out = f &^ bits[cm.k]
+								}
+							}
+							if fact[s]|out != fact[s] {
+								fact[s] |= out
+								changed = true
+							}
+						}
+					}
+				}
+				for _, b := range fn.Blocks {
+					if fact[b] == nb {
+						inArm[b] = true
+						if arm == nil {
+							arm = b
+						}
+					}
 				}
 			}
 		}
@@ -274,7 +336,7 @@ func checkC16(c *core.Ctx, r *core.Report) {
 			}
 			var parsers []ssa.Instruction
 			for _, b := range fn.Blocks {
-				if !arm.Dominates(b) {
+				if !inArm[b] {
 					continue
 				}
 				for _, in := range b.Instrs {
@@ -286,7 +348,7 @@ func checkC16(c *core.Ctx, r *core.Report) {
 			bad := ""
 			nZero := 0
 			for _, ret := range core.Returns(fn) {
-				if !arm.Dominates(ret.Block()) {
+				if !inArm[ret.Block()] {
 					continue
 				}
 				k, isK := core.ConstIntValue(ret.Results[0])
